@@ -9,8 +9,8 @@ ls -d "$root"/C??/m? | xargs -P "$par" -I{} sh -c "tools/eval_seeded.sh {} $ids 
 for d in $(ls -d "$root"/C??/m?); do
   name=$(basename $(dirname $d))/$(basename $d)
   ok=$(grep -c "suite with patch: PASS" $d/eval_all.txt); demo=$(grep -c "demo with patch: FAIL" $d/eval_all.txt)
-  caught=$(grep "^check C" $d/eval_all.txt | grep "exit=1" | sed 's/check \(C[0-9]*\):.*/\1/' | tr '\n' ' ')
-  broken=$(grep "^check C" $d/eval_all.txt | grep -v "exit=1\|exit=0" | sed 's/check \(C[0-9]*\): \(exit=[0-9]*\).*/\1(\2)/' | tr '\n' ' ')
+  caught=$(grep "^check C" $d/eval_all.txt | grep "exit=1 " | sed 's/check \(C[0-9]*\):.*/\1/' | tr '\n' ' ')
+  broken=$(grep "^check C" $d/eval_all.txt | grep -v "exit=1 \|exit=0 " | sed 's/check \(C[0-9]*\): \(exit=[0-9]*\).*/\1(\2)/' | tr '\n' ' ')
   echo "$name suite_pass=$ok demo_fails=$demo caught_by: $caught ${broken:+other: $broken}" >> "$root/matrix.txt"
 done
 cat "$root/matrix.txt"
